@@ -18,7 +18,7 @@ Lemma JT_tk_ext ws tqi tb tk tk' ct cc rt h :
   JT ws tqi tb tk ct cc rt h -> length tk' = length tk -> (forall j, tk_same (tkn tk' j) (tkn tk j)) ->
   JT ws tqi tb tk' ct cc rt h.
 Proof.
-  intros [Hlen Hq Hta Hhold Hinj Hmode Htb Hte Ht3 Htf Hrtnd Hrt Hrts Hrt3 Hcc Hc0 Hctb Hsuf Hfin] El Hs.
+  intros [Hlen Hq Hta Hhold Hinj Hmode Htb Hte Ht3 Htf Hrtnd Hrt Hrts Hrt3 Hcc Hc0 Hctb Hsuf Hfin Hccnd Hccb] El Hs.
   assert (forall j, tt_accepted (tkn tk' j) = tt_accepted (tkn tk j)) as E1 by (intro j; apply Hs).
   assert (forall j, tt_started (tkn tk' j) = tt_started (tkn tk j)) as E2 by (intro j; apply Hs).
   assert (forall j, tt_fin (tkn tk' j) = tt_fin (tkn tk j)) as E3 by (intro j; apply Hs).
@@ -69,7 +69,7 @@ Lemma JT_submit ws tqi tqi' tb tk ct cc rt h body b :
    end) ->
   JT ws tqi' (tb ++ [body]) (tk ++ [ttrk0 0 b]) ct cc rt h.
 Proof.
-  intros [Hlen Hq Hta Hhold Hinj Hmode Htb Hte Ht3 Htf Hrtnd Hrt Hrts Hrt3 Hcc Hc0 Hctb Hsuf Hfin] Hb.
+  intros [Hlen Hq Hta Hhold Hinj Hmode Htb Hte Ht3 Htf Hrtnd Hrt Hrts Hrt3 Hcc Hc0 Hctb Hsuf Hfin Hccnd Hccb] Hb.
   set (n := length tb) in *.
   assert (forall i, (i < n)%nat -> tkn (tk ++ [ttrk0 0 b]) i = tkn tk i) as Hold.
   { intros i Hi. apply tkn_snoc_lt. lia. }
@@ -253,7 +253,7 @@ Lemma JT_clean ws tqi tb tk ct ct' cc rt h i :
   (forall j, j <> i -> In j ct -> In j ct') -> (forall j, In j ct' -> In j ct) ->
   JT ws tqi tb (set_nth i (clean_rec (tkn tk i)) tk) ct' cc rt h.
 Proof.
-  intros [Hlen Hq Hta Hhold Hinj Hmode Htb Hte Ht3 Htf Hrtnd Hrt Hrts Hrt3 Hcc Hc0 Hctb Hsuf Hfin] Hi Hc1 Hc2.
+  intros [Hlen Hq Hta Hhold Hinj Hmode Htb Hte Ht3 Htf Hrtnd Hrt Hrts Hrt3 Hcc Hc0 Hctb Hsuf Hfin Hccnd Hccb] Hi Hc1 Hc2.
   set (tk' := set_nth i (clean_rec (tkn tk i)) tk).
   assert (forall j, tt_accepted (tkn tk' j) = tt_accepted (tkn tk j) /\ tt_started (tkn tk' j) = tt_started (tkn tk j) /\
                     tt_fin (tkn tk' j) = tt_fin (tkn tk j) /\ tt_fincount (tkn tk' j) = tt_fincount (tkn tk j) /\
@@ -371,10 +371,11 @@ Lemma JT_cancel ws tqi tb tk tk' ct ct' cc cc' rt h i c0 c1 :
    forall v kv rest, nth_error ws v = Some kv -> live kv = true -> k_task kv = Some (i, rest) -> In v cc') ->
   (forall v, In v cc' -> ~ In v cc -> forall kv j rest, nth_error ws v = Some kv -> live kv = true -> k_task kv = Some (j, rest) ->
      j = i /\ tt_cancel1 (tkn tk i) || c1 = true) ->
+  NoDup cc' -> (forall v, In v cc' -> (v < length ws)%nat) ->
   JT ws tqi tb tk' ct' cc' rt h.
 Proof.
-  intros [Hlen Hq Hta Hhold Hinj Hmode Htb Hte Ht3 Htf Hrtnd Hrt Hrts Hrt3 Hcc Hc0 Hctb Hsuf Hfin]
-         (El & Ho & A1 & A2 & A3 & A4 & A5 & A6 & A7 & A8 & A9) Hi Ict Ict' Icc C0 C0' C1 C1' Cnew.
+  intros [Hlen Hq Hta Hhold Hinj Hmode Htb Hte Ht3 Htf Hrtnd Hrt Hrts Hrt3 Hcc Hc0 Hctb Hsuf Hfin Hccnd Hccb]
+         (El & Ho & A1 & A2 & A3 & A4 & A5 & A6 & A7 & A8 & A9) Hi Ict Ict' Icc C0 C0' C1 C1' Cnew Hnd' Hb'.
   assert (forall j, tt_accepted (tkn tk' j) = tt_accepted (tkn tk j) /\ tt_started (tkn tk' j) = tt_started (tkn tk j) /\
                     tt_fin (tkn tk' j) = tt_fin (tkn tk j) /\ tt_fincount (tkn tk' j) = tt_fincount (tkn tk j) /\
                     tt_withdrawn (tkn tk' j) = tt_withdrawn (tkn tk j)) as Hs.
@@ -825,6 +826,10 @@ Proof.
       destruct (jt_hold _ _ _ _ _ _ _ _ HT _ _ _ _ Hkv Hk') as (_ & Ha & _ & _ & Hf & _).
       assert (b = false) as -> by (unfold b; rewrite Ha, Hf; reflexivity).
       apply Nat.eqb_neq in Hst. rewrite Hst. apply orb_true_r.
+    + destruct (mem_nat w (pw_cancel_cos x)) eqn:Em; [apply (jt_ccnd _ _ _ _ _ _ _ _ HT)|].
+      constructor; [apply mem_nat_false, Em | apply (jt_ccnd _ _ _ _ _ _ _ _ HT)].
+    + intros v Hv. destruct (mem_nat w (pw_cancel_cos x)); [apply (jt_ccb _ _ _ _ _ _ _ _ HT), Hv|].
+      destruct Hv as [<-|Hv]; [exact Hw | apply (jt_ccb _ _ _ _ _ _ _ _ HT), Hv].
   - (* the task is not running: its id is marked *)
     split; [|exact Hts]. change (get_pool _ 0) with (get_pool x 0).
     apply (J_set_globals tnt tnt x _ None t t'); try assumption; [|eapply JR_cancel; eassumption].
@@ -842,6 +847,8 @@ Proof.
       pose proof (jt_rt3 _ _ _ _ _ _ _ _ HT _ _ _ _ Hv Hlv Hkv) as Hin'.
       rewrite (assoc_get_NoDup_In _ _ _ (jt_rtnd _ _ _ _ _ _ _ _ HT) Hin') in Ert. discriminate.
     + intros v Hv Hnv. contradiction.
+    + apply (jt_ccnd _ _ _ _ _ _ _ _ HT).
+    + apply (jt_ccb _ _ _ _ _ _ _ _ HT).
 Qed.
 
 End Ops.
